@@ -1,5 +1,6 @@
 import SleapVerif.Model.Proto
 import SleapVerif.Model.Tracker
+import SleapVerif.Model.TrackFeatures
 /-!
 Line-protocol driver for C09 / C10 (shared).  Stateful: one tracker at a time.
 
@@ -14,10 +15,13 @@ model takes its *decisions* on that matrix so that no float comparison enters, a
 own exact reduction next to it); the `K` pairs are scipy's result (Hungarian) or numpy's argsort
 order (greedy) for the cost matrix the matcher was given.
 
+Stateless ops: `bbox k (x y)*`, `centroid k (x y)*` (`nan` = missing), `iou a1..a4 b1..b4`,
+`d2 ax ay bx by`, `cosparts ax ay bx by` — the modelled feature / score functions at `Rat`.
+
 Output: `res | ids | out | shape | pattern | reduced | cands | state | missing | cost` where `cost`
 is the matrix the model hands to the matcher (`rows cols entries`, `nan` = +∞).
 -/
-open SleapVerif SleapVerif.Proto SleapVerif.Tracker
+open SleapVerif SleapVerif.Proto SleapVerif.Tracker SleapVerif.TrackFeatures
 
 abbrev Feat := Nat × Nat
 
@@ -143,6 +147,32 @@ def step (st : DState) (line : String) : DState × String :=
       match runP pFrame rest with
       | some fi => handleFrame st fi
       | none => (st, "parse-error")
+  -- stateless feature / score ops (exact at `Rat`)
+  | "bbox" :: rest =>
+      match runP (listOf (do let x ← orat; let y ← orat; pure (x, y))) rest with
+      | some pts => (st, match bbox pts with
+          | some (a, b, c, d) => ratsStr [a, b, c, d]
+          | none => "nan")
+      | none => (st, "parse-error")
+  | "centroid" :: rest =>
+      match runP (listOf (do let x ← orat; let y ← orat; pure (x, y))) rest with
+      | some pts => (st, match centroid pts with
+          | some (a, b) => ratsStr [a, b]
+          | none => "nan")
+      | none => (st, "parse-error")
+  | "iou" :: rest =>
+      match runP (rep 8 rat) rest with
+      | some [a1, a2, a3, a4, b1, b2, b3, b4] => (st, ratStr (scoreIou (a1, a2, a3, a4) (b1, b2, b3, b4)))
+      | _ => (st, "parse-error")
+  | "d2" :: rest =>
+      match runP (rep 4 rat) rest with
+      | some [a1, a2, b1, b2] => (st, ratStr (dist2 (a1, a2) (b1, b2)))
+      | _ => (st, "parse-error")
+  | "cosparts" :: rest =>
+      match runP (rep 4 rat) rest with
+      | some [a1, a2, b1, b2] =>
+          (st, ratsStr [Oks.dot [a1, a2] [b1, b2], Oks.dot [a1, a2] [a1, a2], Oks.dot [b1, b2] [b1, b2]])
+      | _ => (st, "parse-error")
   | _ => (st, "parse-error")
 
 def main : IO Unit := mainLoop step ({} : DState)
